@@ -166,6 +166,13 @@ pub fn record(w: &mut dyn std::io::Write, seed: u64, n_events: usize) {
             Coord { x: x as f64, y: y as f64 }
         }).collect();
         pts.shuffle(&mut rng);
+        // some inputs arrive as a closed ring that turns left at every vertex but winds around twice (every second point of a
+        // large circle): locally convex, not a convex ring
+        if k % 53 == 29 {
+            let m = [41usize, 67, 101][(k / 53) % 3];
+            let circle: Vec<Coord<f64>> = (0..m).map(|i| { let t = 2.0 * std::f64::consts::PI * i as f64 / m as f64; Coord { x: (10000.0 * t.cos()).round(), y: (10000.0 * t.sin()).round() } }).collect();
+            pts = (0..=m).map(|i| circle[(2 * i) % m]).collect();
+        }
         let ints = |v: &[Coord<f64>]| -> Value { Value::Array(v.iter().map(|c| json!([c.x as i64, c.y as i64])).collect()) };
         let r = guard(|| {
             let q = quick_hull(&mut pts.clone());
